@@ -17,7 +17,7 @@ import time
 
 from mc import common, tx
 from mc.common import Stats
-from mc.flshim import Env
+from mc.flshim import Env, kernel_lock_free
 
 PID = 'C02'
 D = 1.0
@@ -29,6 +29,10 @@ FORMS = [
 
 
 def run_world(flmod, w, path, prefix=(), expect=None):
+    try:
+        os.unlink(path)          # pristine lock file for every execution
+    except FileNotFoundError:
+        pass
     sched = tx.Sched(prefix, expect, horizon=100.0, budget=20000)
     env = Env(sched)
     env.install(flmod)
@@ -55,11 +59,18 @@ def run_world(flmod, w, path, prefix=(), expect=None):
                 sched.point('cs')
             if inside != [me]:
                 bad.append(('overlapping_critical_sections', f'{me} found {list(inside)} inside at exit'))
+            if kernel_lock_free(path):
+                bad.append(('reported_success_without_the_lock',
+                            f'{me} is inside the section it entered after a successful acquire, but the OS lock '
+                            f'on the file is free (t={sched.now})'))
             inside.remove(me)
             owners.remove(me)
 
         def thread_body(ti, rounds):
             def body():
+                off = w.get('offsets', {}).get(str(ti), 0.0)
+                if off:
+                    sched.sleep(off)
                 for ri, (oi, form, t, hold) in enumerate(rounds):
                     lock = objs[oi % len(objs)]
                     me = (ti, ri)
@@ -108,7 +119,7 @@ def run_world(flmod, w, path, prefix=(), expect=None):
             sched.spawn(thread_body(ti, rounds), name=f'T{ti}')
         aborted = sched.run()
         leftovers = len(env.open_fds)
-        locked = [o.is_locked for o in objs]
+        locked = [o.is_locked or o._thread_lock.locked_by is not None for o in objs]
     finally:
         for o in objs:
             o._lock_file_fd = None
@@ -123,7 +134,8 @@ def run_world(flmod, w, path, prefix=(), expect=None):
     elif terr:
         bad.append(('thread_raised', repr(terr)))
     elif leftovers or any(locked):
-        bad.append(('lock_left_held', f'{leftovers} descriptors open / is_locked={locked} after all rounds'))
+        bad.append(('lock_left_held', f'{leftovers} descriptors open / (is_locked or in-process lock held)={locked} '
+                                      f'after all rounds'))
     x.result = (bad, tuple(log))
     return x
 
@@ -138,6 +150,11 @@ def worlds(tier):
             for r1 in rounds1:
                 if r0[0] == 1:
                     continue              # wlog thread 0 uses object 0
+                if r0[3] == D and r1[1] in ('nb', 'timed', 'ctx_nb', 'ctx_t') and r1[3] == D and not reentrant \
+                        and r0[1] in ('acq', 'with', 'ctx'):
+                    # the second thread arrives exactly when the first one leaves its section
+                    out.append(({'threads': [[r0], [r1]], 'nobj': 2, 'reentrant': reentrant, 'default_timeout': -1,
+                                 'offsets': {'1': D}}, 1 if q else 2))
                 if q and (r0[3] != D or (r1[3] == D and r1[1] not in ('acq', 'with'))):
                     continue              # quick: the first thread's section is long, the second's mostly short
                 core = r0[1] == 'acq' and (r1[1], r1[2]) in (('acq', None), ('timed', 2 * D), ('with', None)) and r0[3] == D and r1[3] == 0.0
@@ -168,6 +185,11 @@ def worlds(tier):
     for combo in itertools.product(r3, repeat=3):
         if combo[0][0] == 1:
             continue
+        if combo[0][1] == 'acq' and combo[1][1] in ('nb', 'timed') and combo[2][1] == 'acq':
+            # first thread leaves at once, second holds long: a third party may slip in
+            c0 = combo[0][:3] + (0.0,)
+            out.append(({'threads': [[c0], [combo[1]], [combo[2]]], 'nobj': 2, 'reentrant': False,
+                         'default_timeout': -1}, 1))
         if q and len({c[1] for c in combo}) == 1 and combo[0][1] != 'acq':
             continue
         out.append(({'threads': [[c] for c in combo], 'nobj': 2, 'reentrant': False, 'default_timeout': -1}, 1))
